@@ -15,13 +15,13 @@ p=sys.argv[1]+'/meta.json'; m=json.load(open(p)); m['detected_by']='patch no lon
 PY
      rm -rf $W; continue; fi
   fi
-  VCHECK_REPO=$W VCHECK_OUT=$W/_out ${VCHECK_BIN:-/verif/bin/vcheck} check --prop $P --tier quick > $W/_check.log 2>&1; rc=$?
+  VCHECK_REPO=$W VCHECK_OUT=$W/_out VCHECK_VERIF=${SWEEP_VERIF:-/verif} ${VCHECK_BIN:-/verif/bin/vcheck} check --prop $P --tier quick > $W/_check.log 2>&1; rc=$?
   python3 - $D $W/_check.log $rc $P <<'PY'
 import json,sys,re
 d,log,rc,P=sys.argv[1:5]
 obl=[]; verdicts={}
 for l in open(log):
-    m=re.search(r'^VIOLATION property=\S+ replay=\S+ obligation=(.*?) at \S+ \(([^)]*)\)',l)
+    m=re.search(r'^VIOLATION property=\S+ replay=\S+ obligation=(.*?) at \S* \(([^)]*)\)',l)
     if m:
         obl.append(m.group(1)); verdicts[m.group(2)]=verdicts.get(m.group(2),0)+1
 p=d+'/meta.json'; m=json.load(open(p))
